@@ -397,13 +397,13 @@ func TestC11(t *testing.T) {
 		rep.Set("cases", len(cases))
 		rep.Sample(map[string]interface{}{"case": cases[len(cases)/2].String()})
 		c11timing(t, rep)
-		c11pages(t, rep)
+		c11pages(t, rep, "C11")
 	}
 }
 
 // c11pages: a commit lists the diamond's splits page by page; every page size from 1 to 10 (and splits with 0..2 index
 // files, whose keys share the listed prefix) must give the same bundle: all files of all completed splits.
-func c11pages(t *testing.T, rep *lib.Report) {
+func c11pages(t *testing.T, rep *lib.Report, prop string) {
 	n := 0
 	for _, nsplits := range []int{2, 3} {
 		for _, filesPerSplit := range []int{1, 2} {
@@ -448,22 +448,22 @@ func c11pages(t *testing.T, rep *lib.Report) {
 					rep.Eval(1)
 					n++
 					if err := d.Commit(core.BatchSize(page)); err != nil {
-						rep.Violate("C11|pages|commit-fails", desc+": "+err.Error(), rp)
+						rep.Violate(prop+"|pages|commit-fails", desc+": "+err.Error(), rp)
 						return
 					}
 					ents, err := bundleEntries(st, "r", d.BundleID)
 					if err != nil {
-						rep.Violate("C11|pages|bundle-unreadable", desc+": "+err.Error(), rp)
+						rep.Violate(prop+"|pages|bundle-unreadable", desc+": "+err.Error(), rp)
 						return
 					}
 					for name := range want {
 						if _, ok := ents[name]; !ok {
-							rep.Violate("C11|pages|file-of-a-completed-split-missing", fmt.Sprintf("%s: %q is missing from the bundle, which lists %d of %d files", desc, name, len(ents), len(want)), rp)
+							rep.Violate(prop+"|pages|file-of-a-completed-split-missing", fmt.Sprintf("%s: %q is missing from the bundle, which lists %d of %d files", desc, name, len(ents), len(want)), rp)
 							return
 						}
 					}
 					if len(ents) != len(want) {
-						rep.Violate("C11|pages|extra-entries", fmt.Sprintf("%s: bundle lists %d entries, %d files were uploaded", desc, len(ents), len(want)), rp)
+						rep.Violate(prop+"|pages|extra-entries", fmt.Sprintf("%s: bundle lists %d entries, %d files were uploaded", desc, len(ents), len(want)), rp)
 					}
 				})
 			}
